@@ -37,8 +37,13 @@ PRINT_NO_TIME = ' '.join('print ' + r for r in REGS if r != 'time')
 
 class SCase:
     """start mode, register contents, chain of `units` switches"""
-    __slots__ = ('mode', 'regs', 'chain', 'pattern', 'kind')
+    __slots__ = ('mode', 'regs', 'chain', 'pattern', 'kind', 'wrap', 'serial')
+    _serial = [0]
     _rotation = [0]
+    # where each `units` statement of the chain stands: in line; after a branch that is not taken
+    # and names the same mode; in a routine defined at the top and called here; in a loop of one
+    # pass; in the else of a condition whose other branch names the same mode
+    WRAPS = ('plain', 'after-dead-branch', 'routine', 'loop', 'else-branch', 'plain')
     # the command that transmits: every kind of operand in turn (light twice as often)
     KIND_CYCLE = ('light', 'zone', 'group', 'light', 'all', 'matrix', 'location', 'light', 'power_light',
                   'power_all', 'power_group')
@@ -49,6 +54,9 @@ class SCase:
             SCase._rotation[0] += 1
             kind = SCase.KIND_CYCLE[SCase._rotation[0] % len(SCase.KIND_CYCLE)]
         self.kind = kind
+        self.wrap = SCase.WRAPS[(SCase._rotation[0] // 2) % len(SCase.WRAPS)]
+        SCase._serial[0] += 1
+        self.serial = SCase._serial[0]
 
     def command(self):
         return uc.KINDS[self.kind][0] + ' wait'
@@ -69,10 +77,18 @@ class SCase:
     def script_with(self, printing=False):
         pr = (PRINT_NO_TIME if self.pattern else PRINT_ALL)
         body = [self.setup()]
+        if self.wrap == 'routine':
+            body = ['define sw{}_{} begin units {} end'.format(self.serial, k, m)
+                    for k, m in enumerate(self.chain)] + body
         if printing:
             body.append(pr)
-        for m in self.chain:
-            body.append('units ' + m)
+        for k, m in enumerate(self.chain):
+            body.append({'plain': 'units {m}',
+                         'after-dead-branch': 'if {{1 > 2}} begin units {m} end units {m}',
+                         'routine': 'sw{s}_{k}',
+                         'loop': 'repeat 1 begin units {m} end',
+                         'else-branch': 'if {{1 > 2}} begin units {m} end else begin units {m} end',
+                         }[self.wrap].format(m=m, k=k, s=self.serial))
             if printing:
                 body.append(pr)
         body.append(self.command())
@@ -80,6 +96,7 @@ class SCase:
 
     def describe(self):
         return {'start_mode': self.mode, 'chain': list(self.chain), 'command': self.command(),
+                'where_the_units_statements_stand': self.wrap,
                 'regs': {k: repr(v) for k, v in self.regs.items()},
                 'time_pattern': self.pattern,
                 'script_with_switch': self.script_with(),
